@@ -9,6 +9,16 @@ func dumpDebug(p *Prog, what string) {
 	switch what {
 	case "names":
 		p.dumpNames()
+	case "helpers":
+		for _, fn := range p.funcs {
+			if hs := p.HelperSite(fn); hs != nil {
+				fmt.Printf("%s <- %s (root %s)\n", fn.Name, hs.Caller.Name, p.HelperRoot(fn).Name)
+			}
+		}
+	case "locals":
+		p.dumpLocals()
+	case "fields":
+		p.dumpFields()
 	case "cha":
 		roots := []string{"scheduler.ClusterContext.schedule", "objects.Queue.TryQuotaPreemption", "objects.Application.timeoutStateTimer", "objects.Application.timeoutPlaceholderProcessing"}
 		for _, g := range []string{"vta", "cha"} {
